@@ -474,6 +474,13 @@ def main():
         extra_runs.append({"search": "thorough scope", "ops": wide["n_ops"], "oracle_failures": len(wide["failures"]), "errors": wide["errors"]})
         if wide["errors"]:
             tie_notes.append("search for a failing input in the thorough scope did not run to its end: " + "; ".join(str(e)[:160] for e in wide["errors"][:3]))
+        # the same search in the `fixed_point` build for the properties that reach code behind that feature (round-5 seed
+        # C08-r5-1: a change that only exists in the fixed_point build was reported without a failing input)
+        if pid in FIXED_POINT and not failures:
+            say("no failing input in the default build: searching the fixed_point build (10 min limit)")
+            wfp = harness_run("thorough" if pid not in FIXED_POINT_EVERY_TIER else "quick", os.path.join(work, "run-search-fixed_point"), features="fixed_point", compare=False, timeout=600)
+            failures.extend(wfp["failures"])
+            extra_runs.append({"search": "thorough scope, fixed_point build", "ops": wfp["n_ops"], "oracle_failures": len(wfp["failures"]), "errors": wfp["errors"]})
 
     # Oracle classes marked `tie-hypothesis` validate an ASSUMPTION of a theorem on the real code (e.g. the accuracy
     # of the f32 trigonometry that `sector_angular_partial` takes as a hypothesis), not a clause of the property text:
